@@ -66,6 +66,9 @@ func (f *Flow) startCloser() {
 				cl.Err = f.C.Disconnect(q)
 			}
 		}()
+		if s.dead {
+			return // released by the unwinding only: it never returned
+		}
 		cl.Ret = w.Steps
 		w.Ev("closer", cl.Idx, "%s %s -> %s", name, ckNames[cl.Kind], shortErr(cl.Err))
 	})
